@@ -575,10 +575,10 @@ def check(prog, run):
     rep = sch.methods.get("_replace_types_and_directives")
     shapes.require(rep is not None, "C13.I2: _replace_types_and_directives not found")
     run.looked_at(rep)
-    guards = [x for x in own_nodes(rep.node) if isinstance(x, ast.If) and isinstance(x.test, ast.Name)
-              and any(isinstance(y, ast.Call) and isinstance(y.func, ast.Attribute) and y.func.attr == "_invalidate_and_rebuild_caches" for y in ast.walk(x))]
-    shapes.require(len(guards) == 1, "C13.I2: invalidation guard not found")
-    flag = guards[0].test.id
+    from . import c14 as _c14
+    flag = _c14.replacement_flag(rep)       # the local assigned True when something was replaced (guard clause or if-block alike)
+    shapes.require(any(isinstance(y, ast.Call) and isinstance(y.func, ast.Attribute) and y.func.attr == "_invalidate_and_rebuild_caches"
+                       for y in own_nodes(rep.node)), "C13.I2: _replace_types_and_directives no longer rebuilds the caches")
     loops = [x for x in own_nodes(rep.node) if isinstance(x, ast.For)]
     for lp in loops:
         writes_registry = any(isinstance(y, (ast.Assign, ast.Delete)) and any(isinstance(t, ast.Subscript) and ast.unparse(t.value) in ("self.types", "self.directives")
